@@ -25,15 +25,18 @@ CONST = ['CONSTANTS Paths = {"w1","w2","w3"} Entries = {"whole","eA","eB"} NoPat
 
 
 def workbooks():
-    """Three small workbooks. 'Main' is sheet 0 in w1 and w3 but sheet 1 in w2: an entry given by title (eA) and an entry given by
+    """Three small workbooks. 'Main' is sheet 0 in w1 and w2 but sheet 1 in w3: an entry given by title (eA) and an entry given by
     numbers (eB) keep the meaning of their identifiers, whatever was translated before.
     w3 contains a python-like constant, so translating it raises iff the safety check is on."""
     w1 = [('Main', {(0, 0): '=B1+Data!A1', (1, 0): 5, (1, 1): '=SUM(A1:B1)*2', (2, 2): 'x'}),
           ('Data', {(0, 0): 7, (0, 1): '=A1*3'})]
-    w2 = [('Other', {(0, 0): 1, (0, 1): 13, (1, 1): '=A1+A2'}),
-          ('Main', {(0, 0): '=B1*Other!A2', (1, 0): 11, (1, 1): '=A1-B1', (0, 3): 2.5}), ('Data', {(0, 0): 3})]
-    w3 = [('Main', {(0, 0): '=B1&"z"', (1, 0): 'q', (1, 1): '=IF(B1="q",1,2)', (3, 0): 'eval(1)'}),
-          ('Data', {(0, 0): 9})]
+    # w2 repeats w1's formula TEXTS in the same cells, but the constants differ and a sheet is inserted before 'Data':
+    # nothing learnt while translating w1 (values, sheet indices) may be reused
+    w2 = [('Main', {(0, 0): '=B1+Data!A1', (1, 0): 11, (1, 1): '=SUM(A1:B1)*2', (0, 3): 2.5}),
+          ('Other', {(0, 0): 1, (0, 1): 13, (1, 1): '=A1+A2'}), ('Data', {(0, 0): 3, (0, 1): '=A1*3'})]
+    # w3: 'Main' is the SECOND sheet (an entry given by title must follow it, an entry given by numbers must not)
+    w3 = [('Data', {(0, 0): 9, (1, 1): 4}),
+          ('Main', {(0, 0): '=B1&"z"', (1, 0): 'q', (1, 1): '=IF(B1="q",1,2)', (3, 0): 'eval(1)'})]
     return {'w1': w1, 'w2': w2, 'w3': w3}
 
 
